@@ -40,6 +40,7 @@ def reference(start, nbytes, mem_start):
 
 def run(rep, tier):
     cx = Ctx(rep, "cranelift")
+    rep.where_by_opcode = cx.opcode_where(cx.roles.cranelift_translate())
     cm = clmodel.ClModel(cx)
     if not cm.ok:
         return
